@@ -100,8 +100,10 @@ namespace GeographicLib {
     // Return latitude band number [-10, 10) for the given latitude (degrees).
     // The bands are reckoned in include their southern edges.
     static int LatitudeBand(real lat) {
-      using std::floor;
-      int ilat = int(floor(lat));
+      using std::floor; using std::fmax; using std::fmin;
+      // Clamp to [-90, 90] first so that NaN, infinities and huge values are
+      // not converted to int (undefined behavior).
+      int ilat = int(floor(fmax(real(-Math::qd), fmin(real(Math::qd), lat))));
       return (std::max)(-10, (std::min)(9, (ilat + 80)/8 - 10));
     }
     // Return approximate latitude band number [-10, 10) for the given northing
